@@ -78,7 +78,7 @@ fn op_strategy() -> impl Strategy<Value = Op> {
 }
 
 fn case_strategy() -> BoxedStrategy<Case> {
-    (0u8..4, 1u8..=12, prop_oneof![Just(1u8), Just(4u8), Just(25u8)], proptest::collection::vec(op_strategy(), 1..80))
+    (0u8..4, 1u8..=(vh_core::depth(12, 15) as u8), prop_oneof![Just(1u8), Just(4u8), Just(25u8)], proptest::collection::vec(op_strategy(), 1..vh_core::depth(80, 260)))
         .prop_map(|(node, cap, cache, ops)| Case { node, cap, cache, ops })
         .boxed()
 }
